@@ -463,8 +463,12 @@ class Ctx:
             "coverage": cov, "assumptions": self.assumptions, "wall_s": round(wall, 2),
             "violations": len(self.violations),
         }
-        os.makedirs(os.path.join(ROOT, "evidence"), exist_ok=True)
-        with open(os.path.join(ROOT, "evidence", self.prop + ".json"), "w") as f:
+        # runs against a scratch worktree (VERIF_REPO, used to try seeded changes) must not
+        # overwrite the committed evidence, which describes /repo itself
+        evdir = os.environ.get("VERIF_EVIDENCE_DIR") or (
+            os.path.join(ROOT, "evidence") if os.path.realpath(REPO) == "/repo" else "/var/tmp/verif-evidence-worktrees")
+        os.makedirs(evdir, exist_ok=True)
+        with open(os.path.join(evdir, self.prop + ".json"), "w") as f:
             json.dump(ev, f, indent=1, default=str)
         for k in self.known:
             print("KNOWN-FINDING: property=%s %s" % (self.prop, k["what"]))
